@@ -14,6 +14,10 @@
 (* model's result equals the recorded one.  Gated's invariants are         *)
 (* evaluated in every state of the matched behaviour.                      *)
 (*                                                                         *)
+(* Process takes the filter's lock twice - the expiry sweep, then gating / *)
+(* flushing - so a Process call has two linearisation points (LinSweep,    *)
+(* LinGate) and other calls may take effect in between (a FlushAll that    *)
+(* finds the gate empty between another caller's sweep and its gating).    *)
 (* Normal form of the search: a call is linearised only when the next      *)
 (* history event is a response (moving a linearisation point later, up to  *)
 (* the next response, never turns an explainable history into an           *)
@@ -22,32 +26,48 @@
 (***************************************************************************)
 EXTENDS Gated, Json
 Traces == ndJsonDeserialize("gconc.ndjson")
-VARIABLES tr, l, pend, done
-tvars == <<vars, tr, l, pend, done>>
+VARIABLES tr, l, pend, done, swept   \* swept[op]: ComposeFrom calls made by the sweep of a Process that has not gated yet
+tvars == <<vars, tr, l, pend, done, swept>>
 H == Traces[tr].h
 InvOf(op) == H[CHOOSE k \in 1..Len(H) : H[k].k = "inv" /\ H[k].op = op]
 RespOf(op) == H[CHOOSE k \in 1..Len(H) : H[k].k = "resp" /\ H[k].op = op]
 
-TInit == /\ tr \in 1..Len(Traces) /\ l = 1 /\ pend = {} /\ done = {}
+TInit == /\ tr \in 1..Len(Traces) /\ l = 1 /\ pend = {} /\ done = {} /\ swept = <<>>
          /\ groups = <<>> /\ clock = 0 /\ ord = 0 /\ depth = 0 /\ last = [a |-> "init"] /\ path = <<>>
          /\ accepted = {} /\ emitted = <<>> /\ discarded = {}
          /\ idOf = Traces[tr].ids            \* id of every event number ("-" plain, "" empty id)
 
 Same == UNCHANGED <<ord, depth, path, idOf, tr>>
 TInv == /\ l <= Len(H) /\ H[l].k = "inv" /\ pend' = pend \cup {H[l].op} /\ l' = l + 1
-        /\ UNCHANGED <<groups, clock, last, accepted, emitted, discarded, done>> /\ Same
+        /\ UNCHANGED <<groups, clock, last, accepted, emitted, discarded, done, swept>> /\ Same
 Burst == l <= Len(H) /\ H[l].k = "resp"
 Matches(r, resp) == r.ret = resp.ret /\ r.sent = resp.sent
 
-LinEv(op, c) ==
-  \E r \in {ProcessF(groups, clock, c.ev, c.id, c.flush, c.fail)} :
-     /\ Matches(r, RespOf(op))
-     /\ groups' = r.gs
-     /\ accepted' = IF r.acc THEN accepted \cup {c.ev} ELSE accepted
-     /\ emitted' = emitted \o r.sent \o (IF r.ret[1] = "comp" THEN <<r.ret[2]>> ELSE <<>>)
-     /\ discarded' = discarded \cup r.disc
-     /\ last' = [a |-> "ev", ret |-> r.ret, sent |-> r.sent]
-     /\ UNCHANGED clock
+Finish(op) == pend' = pend \ {op} /\ done' = done \cup {op}
+Drop(f, op) == [o \in DOMAIN f \ {op} |-> f[o]]
+LinSweep(op, c) ==
+  /\ op \notin DOMAIN swept
+  /\ \E ex \in {SweepF(groups, clock, c.fail)} :
+       /\ ex.sent = RespOf(op).sent
+       /\ groups' = Keep(groups, ex.rm)
+       /\ emitted' = emitted \o ex.sent /\ discarded' = discarded \cup ex.disc
+       /\ IF ex.err
+          THEN /\ RespOf(op).ret = <<"err">> /\ Finish(op) /\ swept' = swept
+               /\ last' = [a |-> "ev", ret |-> <<"err">>, sent |-> ex.sent]
+          ELSE /\ swept' = swept @@ (op :> ex.nc) /\ UNCHANGED <<pend, done>>
+               /\ last' = [a |-> "sweep", ret |-> <<"-">>, sent |-> ex.sent]
+  /\ UNCHANGED <<clock, accepted>>
+LinGate(op, c) ==
+  /\ op \in DOMAIN swept
+  /\ \E r \in {GateF(groups, clock, c.ev, c.id, c.flush, c.fail, swept[op])} :
+       /\ r.ret = RespOf(op).ret
+       /\ groups' = r.gs
+       /\ accepted' = accepted \cup {c.ev}
+       /\ emitted' = emitted \o (IF r.ret[1] = "comp" THEN <<r.ret[2]>> ELSE <<>>)
+       /\ discarded' = discarded \cup r.disc
+       /\ last' = [a |-> "ev", ret |-> r.ret, sent |-> <<>>]
+  /\ Finish(op) /\ swept' = Drop(swept, op)
+  /\ UNCHANGED clock
 LinFlushAll(op, c) ==
   \E r \in {FlushAllF(groups, c.fail)} :
      /\ Matches(r, RespOf(op))
@@ -62,13 +82,13 @@ LinOther(op, c) ==
   /\ UNCHANGED <<groups, accepted, emitted, discarded>>
 Lin(op) == /\ Burst /\ op \in pend
            /\ LET c == InvOf(op) IN
-                 CASE c.kind = "ev" -> LinEv(op, c)
-                   [] c.kind = "flushall" -> LinFlushAll(op, c)
-                   [] OTHER -> LinOther(op, c)
-           /\ pend' = pend \ {op} /\ done' = done \cup {op} /\ UNCHANGED l /\ Same
+                 CASE c.kind = "ev" -> LinSweep(op, c) \/ LinGate(op, c)
+                   [] c.kind = "flushall" -> LinFlushAll(op, c) /\ Finish(op) /\ swept' = swept
+                   [] OTHER -> LinOther(op, c) /\ Finish(op) /\ swept' = swept
+           /\ UNCHANGED l /\ Same
 TResp == /\ l <= Len(H) /\ H[l].k = "resp" /\ H[l].op \in done
          /\ done' = done \ {H[l].op} /\ l' = l + 1
-         /\ UNCHANGED <<groups, clock, last, accepted, emitted, discarded, pend>> /\ Same
+         /\ UNCHANGED <<groups, clock, last, accepted, emitted, discarded, pend, swept>> /\ Same
 TNext == TInv \/ TResp \/ \E op \in pend : Lin(op)
 TSpec == TInit /\ [][TNext]_tvars
 Report == (l > Len(H)) => PrintT(<<"ACCEPT", Traces[tr].id>>)
